@@ -269,8 +269,29 @@ def recursion(ctx):
         seen.add(funcs)
         key = "SCC{%s}" % ",".join(sorted(funcs))
         f0 = nodes[comp[0]][0]
-        if funcs in ALLOWED_SCCS:
-            r.ok("C03.2", key, f0.where, detail={"cycle": sorted(funcs), "bounded_because": ALLOWED_SCCS[funcs]})
+        core = next((c for c in ALLOWED_SCCS if c <= funcs), None)
+        helpers_ok = False
+        if core is not None and funcs != core:
+            # extra members (helpers extracted from the core) are fine if the bounding argument still holds:
+            # (1) without endTagP the component is acyclic, (2) every in-component call made by endTagP is under the
+            # negative scope test, (3) every in-component call of endTagP made by another member is under the positive one
+            pivot = "InBodyPhase.endTagP"
+            rest = {k: {m for m in edges.get(k, ()) if m in comp_set(comp) and m[0].split("::", 1)[1] != pivot}
+                    for k in comp if k[0].split("::", 1)[1] != pivot}
+            acyclic = not sccs(rest)
+            ok2 = ok3 = True
+            for k in comp:
+                fk = nodes[k][0]
+                qn = fk.qual
+                in_comp_callees = {nodes[m][0].name for m in edges.get(k, ()) if m in comp_set(comp)}
+                for callee in in_comp_callees:
+                    if qn == pivot:
+                        ok2 = ok2 and _call_under_scope_test(fk, callee, positive=False)
+                    elif callee == "endTagP":
+                        ok3 = ok3 and _call_under_scope_test(fk, callee, positive=True)
+            helpers_ok = acyclic and ok2 and ok3
+        if funcs in ALLOWED_SCCS or helpers_ok:
+            r.ok("C03.2", key, f0.where, detail={"cycle": sorted(funcs), "bounded_because": ALLOWED_SCCS[core if core else funcs]})
         else:
             r.bad("C03.2", key, f0.where,
                   "recursion in tree construction that is not in the allow-table: %s (depth can grow with the input -> "
@@ -292,6 +313,10 @@ def recursion(ctx):
         raise AnalysisError("unresolved calls on repository receivers: %s" % pm.unresolved[:5])
 
 
+def comp_set(comp):
+    return set(comp)
+
+
 def _is_scope_test(n, name=None):
     a = n.ast
     if n.kind != "test" or not isinstance(a, ast.Call) or not isinstance(a.func, ast.Attribute):
@@ -307,6 +332,14 @@ def _call_under_scope_test(f, callee, positive) -> bool:
     cfg = CFG(f.node)
     targets = [n for n in cfg.stmt_nodes() if any(isinstance(c.func, ast.Attribute) and c.func.attr == callee
                                                   for c in node_calls(n))]
+    if not targets and f.cls is not None:
+        # the guarded call may have been extracted into a helper of the same class
+        for n in cfg.stmt_nodes():
+            for c in node_calls(n):
+                if isinstance(c.func, ast.Attribute) and isinstance(c.func.value, ast.Name) and c.func.value.id == "self":
+                    h = f.cls.find_method(c.func.attr)
+                    if h is not None and h is not f and _call_under_scope_test(h, callee, positive):
+                        return True
     if not targets:
         return False
     return all(cfg.dominated_by(t, lambda n, lab: _is_scope_test(n, "'p'") and lab is positive) for t in targets)
